@@ -249,14 +249,14 @@ def io_executor(ctx, prog, unwind=6, extra=()):
     return ex
 
 
-def explore_step(ctx, ex, prog, shapeA='None', consumersA=1, consumersB=1, second_frame=False, frame_name='frame', pre=None, ch0_prefill=0, prefillA=0):
+def explore_step(ctx, ex, prog, shapeA='None', consumersA=1, consumersB=1, second_frame=False, frame_name='frame', pre=None, ch0_prefill=0, prefillA=0, sealed=False):
     """One step of ConnectionState::process from a Steady state with two open channels A, B (symbolic distinct
     non-zero ids), A's collector in `shapeA`, over a fully symbolic frame.
     -> (fs, a, b, infoA, [(state, world, result)])"""
     a, b = z3.BitVec('chan_a', 16), z3.BitVec('chan_b', 16)
     w0 = World()
     collA, infoA = collector_value(prog, w0, a, shapeA, 'A.coll')
-    st, w = build_steady(prog, [('A', a, {'consumers': consumersA, 'collector': collA, 'reply_prefill': prefillA}), ('B', b, {'consumers': consumersB})], ch0_reply_prefill=ch0_prefill)
+    st, w = build_steady(prog, [('A', a, {'consumers': consumersA, 'collector': collA, 'reply_prefill': prefillA}), ('B', b, {'consumers': consumersB})], ch0_reply_prefill=ch0_prefill, sealed=sealed)
     st.pc += infoA.get('inv', [])
     fs = FrameSym(prog, frame_name)
     FV = fs.FV
